@@ -36,6 +36,11 @@ from pbt.checks.c01 import FORMS
 
 
 # ---------------------------------------------------------------------------
+def _no_show(*a, **k):
+    """Library warnings (unknown tags...) are not an oracle here; keep worker stderr quiet even when another
+    thread's catch_warnings() restores the filters mid-flight."""
+
+
 def tree_snapshot(elem):
     return (elem.tag, elem.text, elem.tail, tuple(sorted(elem.attrib.items())), tuple(id(c) for c in elem), tuple(tree_snapshot(c) for c in elem))
 
@@ -51,6 +56,7 @@ def run_item(item, held=None):
     kind = item["kind"]
     bad = []
     warnings.simplefilter("ignore")  # process-wide and idempotent: catch_warnings() is not thread-safe
+    warnings.showwarning = _no_show
     if True:
         try:
             if kind == "wire":
